@@ -367,13 +367,26 @@ func cmdCheck(args []string) int {
 		rdir := filepath.Join(root, "replays", id, pv.h.Func+"-"+sanitize(pv.v.Label))
 		os.RemoveAll(rdir)
 		cases := []interp.NativeCase{{ID: "cex", Harness: pv.h.Func, Tier: *tier, Values: pv.v.Model}}
-		outs, err := sess.RunNative(pv.h.Pkg, cases, rdir)
-		if err != nil || len(outs) != 1 {
+		// The engine iterates Go maps in insertion order; natively the order is
+		// random per run. A counterexample that needs a particular order is
+		// replayed up to six times before it is given up as not reproducible.
+		var o interp.NativeOutcome
+		reproduced, ran := false, false
+		var err error
+		for try := 0; try < 6 && !reproduced; try++ {
+			var outs []interp.NativeOutcome
+			outs, err = sess.RunNative(pv.h.Pkg, cases, rdir)
+			if err != nil || len(outs) != 1 {
+				break
+			}
+			ran = true
+			o = outs[0]
+			reproduced = contains(o.FailedAsserts, pv.v.Label) || (pv.v.Label == "no-panic" && o.Panic != "")
+		}
+		if !ran {
 			inconclusive = append(inconclusive, fmt.Sprintf("ENGINE-MISMATCH %s/%s: native replay could not run: %v", pv.h.Func, pv.v.Label, err))
 			continue
 		}
-		o := outs[0]
-		reproduced := contains(o.FailedAsserts, pv.v.Label) || (pv.v.Label == "no-panic" && o.Panic != "")
 		meta, _ := json.MarshalIndent(map[string]interface{}{"property": spec.PropertyID, "harness": pv.h.Func, "label": pv.v.Label,
 			"model": pv.v.Model, "decisions": decisionsText(pv.v.Decisions), "detail": pv.v.Detail, "native_outcome": o, "reproduced": reproduced}, "", " ")
 		os.WriteFile(filepath.Join(rdir, "counterexample.json"), meta, 0o644)
@@ -430,16 +443,6 @@ func cmdReplay(args []string) int {
 		usage()
 	}
 	dir := args[0]
-	cmd := exec.Command("/bin/sh", filepath.Join(dir, "replay.sh"))
-	out, err := cmd.CombinedOutput()
-	fmt.Print(string(out))
-	data, rerr := os.ReadFile(filepath.Join(dir, "outcomes.json"))
-	if rerr != nil {
-		fmt.Println("replay failed:", err)
-		return 2
-	}
-	var outs []interp.NativeOutcome
-	json.Unmarshal(data, &outs)
 	var meta struct {
 		Property string `json:"property"`
 		Label    string `json:"label"`
@@ -447,10 +450,26 @@ func cmdReplay(args []string) int {
 	if b, err := os.ReadFile(filepath.Join(dir, "counterexample.json")); err == nil {
 		json.Unmarshal(b, &meta)
 	}
-	for _, o := range outs {
-		if contains(o.FailedAsserts, meta.Label) || (meta.Label == "no-panic" && o.Panic != "") {
-			fmt.Printf("VIOLATION property=%s replay=%s\n", meta.Property, dir)
-			return 1
+	// up to six runs: a counterexample may need a particular Go map iteration
+	// order, which is random per run
+	for try := 0; try < 6; try++ {
+		cmd := exec.Command("/bin/sh", filepath.Join(dir, "replay.sh"))
+		out, err := cmd.CombinedOutput()
+		if try == 0 {
+			fmt.Print(string(out))
+		}
+		data, rerr := os.ReadFile(filepath.Join(dir, "outcomes.json"))
+		if rerr != nil {
+			fmt.Println("replay failed:", err)
+			return 2
+		}
+		var outs []interp.NativeOutcome
+		json.Unmarshal(data, &outs)
+		for _, o := range outs {
+			if contains(o.FailedAsserts, meta.Label) || (meta.Label == "no-panic" && o.Panic != "") {
+				fmt.Printf("VIOLATION property=%s replay=%s\n", meta.Property, dir)
+				return 1
+			}
 		}
 	}
 	fmt.Println("replay: assertion holds natively on the recorded inputs")
